@@ -490,6 +490,12 @@ def oracle(f, t):
 def check_C09(tier, seed):
     res = Result(PID, tier, seed)
     proof = prepare(PID, res, model_tags=("C09",))
+    if tier == "thorough" and not proof["broken"]:
+        with core.Lock():
+            ok, out = core.coqchk(PID)
+        res.coverage["coqchk"] = "ok" if ok else "FAILED"
+        if not ok:
+            res.add_tie_break("coqchk rejects the compiled proofs", error=out[-1500:])
     rng = gen.rng_for(seed, PID)
     known = {d["class"]: d for d in load_known()}
     groups = c09_groups(tier, rng)
